@@ -110,17 +110,24 @@ def run(ctx):
                "%d fallible sites enumerated; dirty written after a failure of: %s" % (len(sites), sorted(set(bad))),
                site=ctx.site_of(F, f["def"]), key="C12.retry|finalize|fail-keeps-dirty")
         # a failed finalize leaves the writer's running state as it found it, so that the retry recomputes the same headers:
-        # on a failing path the only fields that may be left changed are those an undisturbed finalize also leaves changed
-        # (the in-place zeroing of untouched ranges, which is idempotent)
-        ok_changed = set()
+        # on a failing path a field may only be left with its old value or with the value an undisturbed finalize also leaves in it
+        # (the in-place zeroing of untouched ranges, which is idempotent); a value moved out and put back only at the end is not
+        def unchanged(p, pth, v):
+            old = ('load', (('T', ('param', 1)), pth))
+            if v == old:
+                return True                                      # saved and restored
+            # None stored over what this path knows to be None already (an Option taken when it was empty)
+            return v == absint.NONE and any(t == ('discr', old) and c in (0, ('not', (1,))) for t, c in p.cons)
+
+        ok_changed = {}
         for p in succ:
             fin_ = {}
             for e in absint.flat_effects(p.eff):
                 if e[0] == 'store' and e[1][0] == ('T', ('param', 1)):
                     fin_[e[1][1]] = e[2]
             for pth, v in fin_.items():
-                if v != ('load', (('T', ('param', 1)), pth)):       # saved-and-restored is not a change
-                    ok_changed.add(pth)
+                if not unchanged(p, pth, v):
+                    ok_changed.setdefault(pth, set()).add(v)
         left = set()
         for s_, w in sites:
             for p in absint.Interp(F, fail_site=s_).run(f):
@@ -131,7 +138,7 @@ def run(ctx):
                     if e[0] == 'store' and e[1][0] == ('T', ('param', 1)):
                         final[e[1][1]] = e[2]
                 for pth, v in final.items():
-                    if pth not in ok_changed and v != ('load', (('T', ('param', 1)), pth)):
+                    if v not in ok_changed.get(pth, ()) and not unchanged(p, pth, v):
                         left.add("%s after a failure of %s" % (absint.path_str((('T', ('param', 1)), pth)), w.split('::')[-1]))
         ctx.ob("C12.retry", "failure leaves the running state", not left,
                "; ".join(sorted(left)[:4]) or "no field of the writer is left changed by a failing finalize (beyond what a successful one changes)",
